@@ -45,8 +45,13 @@ def check_grid_dispatch(ctx: Ctx):
         if subj != f"{fi.params[0]}.grid":
             continue
         cls = U(test.args[1])
-        rets = [x for x in body if isinstance(x, ast.Return) and isinstance(x.value, ast.Call)]
-        if rets:
+        rets = [x for b_ in body for x in ast.walk(b_) if isinstance(x, ast.Return) and isinstance(x.value, ast.Call)]
+        forms = {(dotted(r_.value.func), tuple(U(fv.expand(a, r_, allow_mutated=True)) for a in r_.value.args)) for r_ in rets}
+        if len(forms) > 1:
+            # several locators for one grid family: the anchored one is by-passed for some grids of the family
+            other_ = sorted(f_[0] or "?" for f_ in forms if f_[0] != want.get(cls))
+            got[cls] = (f"{want.get(cls)} | {', '.join(other_)}", [])
+        elif rets:
             got[cls] = (dotted(rets[-1].value.func), [U(fv.expand(a, rets[-1], allow_mutated=True)) for a in rets[-1].value.args])
         elif body and isinstance(body[-1], ast.Raise):
             got[cls] = ("raise", [])
@@ -368,6 +373,12 @@ def check(ctx: Ctx):
     render.check_polar(ctx, rules=("DIV0",))
     render.check_arity(ctx)
     check_grid_dispatch(ctx)
+    from ..rules import support
+
+    support.check_none_arithmetic(ctx, (f"{IMG}.refine_droplets", "droplets.emulsions.EmulsionTimeCourse.from_storage"))
+    support.check_elementwise_shape_methods(ctx)
+    support.check_scalar_wrapper(ctx)
+    ctx.expect("WRAP", 1)
     check_threshold_dispatch(ctx)
     refine.check_pack(ctx, rules=("PACK", "FEASIBLE", "STRICT"))
     # the fit starts from the candidate's own parameters: every valid parameter value (radius 0, interface width 0, amplitudes
